@@ -36,7 +36,9 @@ MANIFEST = {
             'hand model of _do_simplify_combine: combine_series_equiv / combine_parallel_equiv at full strength for the '
             'orientation-aware variant, the exact side conditions under which the unchanged tree is right, and refutation '
             'theorems for the rest (F3 polarity, F4 initial-condition sum, dependence on the enumeration order); '
-            'dangling_removal_sound, renumber_iso, s_model_equiv, noisy_killed_equiv, switch_replace_noevent.  The model is tied '
+            'dangling_removal_sound, renumber_iso, s_model_equiv, noisy_killed_equiv, switch_replace_noevent; the orientation rule a '
+            'combination has to satisfy is stated once (series_rule / parallel_rule) with series_rule_repaired, series_rule_unchanged '
+            '(exact side conditions) and series_rule_violated / parallel_rule_violated.  The model is tied '
             'to the code by evaluating it inside Coq on what the real code did, for the set-enumeration order actually used.',
     'note': 'Trusted: Coq kernel/vm_compute; specification coq/theory/Circuit.v; hand model coq/theory/RewriteModel.v validated by '
             'correspondence on every run (simplify incl. namer, wires, dangling/disconnected removal, select/ignore/keep_nodes/passes; '
@@ -47,16 +49,20 @@ MANIFEST = {
             'series_combine_sound / parallel_combine_sound lift the chain theorems to whole netlists from the boolean facts the '
             'contract check computes (walk on node names, private degree-2 joints, distinct names); they apply directly when the '
             'recorded chain is a chain on node NAMES (counted per run), groups that only close through wires are covered by '
-            'correspondence and the electrical oracle; ac_model (complex values) is covered by s_model_equiv for arbitrary '
-            'fields but not by correspondence; expand is checked as the identity (no expandable components are generated).',
+            'correspondence and the electrical oracle; ac_model(omega) = s_model(j omega) is evaluated over the Gaussian rationals '
+            '(RewriteCorrI.v: impedances at j omega, sources left as transforms in s) and compared with the code, without an electrical '
+            'oracle (the result mixes phasor impedances with Laplace sources; s_model_equiv covers it for arbitrary fields); '
+            'noise_model() is compared structurally (the symbolic value sqrt(4 k_B T R) is not); expand is checked as the identity '
+            '(no expandable components are generated).',
     'technique': 'Coq proof (port equivalence, series/parallel combination, converses) + hand model evaluated in Coq against the real '
                  'rewrites under 4 hash seeds + electrical solve-and-compare oracle',
 }
 
-THEORY = ['FieldSec', 'Circuit', 'RewriteEquiv', 'RewriteBranch', 'RewriteMore', 'RewriteModel', 'RewriteKeyed', 'RewriteSem', 'RewriteCorr', 'RewriteRenum']
+THEORY = ['FieldSec', 'Circuit', 'RewriteEquiv', 'RewriteBranch', 'RewriteMore', 'RewriteModel', 'RewriteKeyed', 'RewriteSem', 'RewriteCorr', 'RewriteRenum', 'QcI', 'RewriteCorrI']
 HASHSEEDS = [0, 1, 2, 3]
 TAGS = {1: 'polarity:V', 2: 'polarity:I', 3: 'polarity:ic:C-series', 4: 'polarity:ic:L-parallel', 5: 'ic-sum:L-series',
-        6: 'ic-sum:C-parallel', 7: 'ic-mixed:C-series', 8: 'ic-mixed:L-parallel', 9: 'kw-mixed'}
+        6: 'ic-sum:C-parallel', 7: 'ic-mixed:C-series', 8: 'ic-mixed:L-parallel', 9: 'kw-mixed',
+        10: 'polarity:ic:C-parallel', 11: 'polarity:ic:L-series'}
 CODES = {1: 'netlists differ', 2: 'model raises, code returned', 3: 'code raised, model returns', 4: 'trace does not fit the model control flow',
          7: 'model of augment_node_map and the returned node map differ', 8: 'the node map violates its contract (injective on nodes and equipotential classes, reference node fixed, requested pairs honoured)',
          9: 'self.equipotential_nodes violates its contract'}
@@ -79,6 +85,8 @@ CORPUS = [
     {'netlist': ['I1 1 0 2', 'I2 0 1 3', 'R1 1 0 2'], 'op': 'simplify', 'args': {}, 's0': '2', 'tags': ['corpus', 'polarity:I']},
     {'netlist': ['V1 1 0 step 5', 'R1 1 2 2', 'C1 2 3 3 1', 'C2 0 3 5 2'], 'op': 'simplify', 'args': {}, 's0': '3/2', 'tags': ['corpus', 'polarity:ic:C-series']},
     {'netlist': ['V1 1 0 step 5', 'R1 1 2 2', 'L1 2 0 3 1', 'L2 0 2 5 2'], 'op': 'simplify', 'args': {}, 's0': '3/2', 'tags': ['corpus', 'polarity:ic:L-parallel']},
+    {'netlist': ['V1 1 0 step 5', 'R1 1 2 2', 'C1 2 0 3 4', 'C2 0 2 5 4'], 'op': 'simplify', 'args': {}, 's0': '3/2', 'tags': ['corpus', 'polarity:ic:C-parallel']},
+    {'netlist': ['V1 1 0 step 5', 'R1 1 2 2', 'L1 2 3 3 2', 'L2 0 3 5 2'], 'op': 'simplify', 'args': {}, 's0': '3/2', 'tags': ['corpus', 'polarity:ic:L-series']},
     {'netlist': ['V1 1 0 step 5', 'R1 1 2 2', 'L1 2 3 3 2', 'L2 3 0 5 2'], 'op': 'simplify', 'args': {}, 's0': '3/2', 'tags': ['corpus', 'ic-sum:L-series']},
     {'netlist': ['V1 1 0 step 5', 'R1 1 2 2', 'C1 2 3 3', 'C2 3 0 5 4'], 'op': 'simplify', 'args': {}, 's0': '3/2', 'tags': ['corpus', 'ic-mixed:C-series']},
     {'netlist': ['V1 1 0 step 5', 'R1 1 2 2', 'L1 2 0 3', 'L2 2 0 5 2'], 'op': 'simplify', 'args': {}, 's0': '3/2', 'tags': ['corpus', 'ic-mixed:L-parallel']},
@@ -93,6 +101,8 @@ CORPUS = [
     {'netlist': ['V1 a 0 6', 'R1 a b 1', 'R2 b c 2', 'R3 c 0 3'], 'op': 'renumber', 'args': {'node_map': {'a': '2'}}, 's0': '2', 'tags': ['corpus', 'renumber_partial_small']},
     {'netlist': ['V1 1 0 6', 'R1 1 2 1', 'R2 2 3 2', 'R3 3 0 3', 'W 3 3_1', 'R4 3_1 0 2'], 'op': 'renumber', 'args': {'node_map': {'3_1': '1', '1': 'x'}}, 's0': '2', 'tags': ['corpus', 'renumber_partial_wire']},
     {'netlist': ['V1 1 0 step 5', 'R1 1 2 2', 'C1 2 3 3 4', 'L1 3 0 5 1', 'R2 3 0 7', 'C2 2 0 2', 'L2 2 0 3'], 'op': 's_model', 'args': {}, 's0': '3/2', 'tags': ['corpus', 'ok']},
+    {'netlist': ['V1 1 0 step 5', 'R1 1 2 2', 'C1 2 3 3 4', 'L1 3 0 5 1', 'R2 3 0 7', 'C2 2 0 2', 'L2 2 0 3', 'I1 2 0 step 2'], 'op': 'ac_model', 'args': {'omega': '3/2'}, 'orig_s_imag': '3/2', 's0': '5/3', 'tags': ['corpus', 'ok']},
+    {'netlist': ['V1 1 0 step 5', 'R1 1 2 2', 'C1 2 0 3', 'R2 2 0 7'], 'op': 'noisy', 'args': {}, 's0': '3/2', 'tags': ['corpus', 'ok']},
     {'netlist': ['V1 1 0 step 5', 'R1 1 2 2', 'C1 2 0 3', 'R2 2 0 7'], 'op': 'noisy_kill', 'args': {}, 's0': '3/2', 'tags': ['corpus', 'ok']},
     {'netlist': ['V1 1 0 5', 'SW1 1 2 no 5', 'R1 2 0 3', 'SW2 2 3 nc 2', 'R2 3 0 1'], 'op': 'switch_before', 'args': {'t': '3'}, 's0': '2', 'tags': ['corpus', 'replace_switches_before:inverted']},
     {'netlist': ['V1 1 0 5', 'SW1 1 2 no 5', 'R1 2 0 3', 'SW2 2 3 nc 2', 'R2 3 0 1'], 'op': 'switch_before', 'args': {'t': '5'}, 's0': '2', 'tags': ['corpus', 'switch']},
@@ -112,11 +122,11 @@ def gen_cases(rng, tier):
                       's0': '%d/%d' % (rng.randint(1, 9), rng.randint(1, 4))})
     n_other = 3 if tier == 'quick' else 16
     for i in range(n_other):
-        for op in ('renumber', 'renumber_map', 'copy', 'expand', 's_model', 'noisy_kill', 'subs'):
-            icm = 'unequal' if op in ('s_model', 'renumber', 'renumber_map') and rng.random() < 0.7 else 'none'
-            nl = G.gen_netlist(rng, 'mixed', icm, 'same', extras=False, small=True, kw='step' if op == 's_model' else None)
+        for op in ('renumber', 'renumber_map', 'copy', 'expand', 's_model', 'ac_model', 'noisy_kill', 'noisy', 'subs'):
+            icm = 'unequal' if op in ('s_model', 'ac_model', 'renumber', 'renumber_map') and rng.random() < 0.7 else 'none'
+            nl = G.gen_netlist(rng, 'mixed', icm, 'same', extras=False, small=True, kw='step' if op in ('s_model', 'ac_model') else None)
             lines = nl['lines']
-            if op == 'noisy_kill':
+            if op in ('noisy_kill', 'noisy'):
                 # RC._noisy names the noiseless resistor N<name>: a user component of that name would be overwritten
                 # (acknowledged in the source); keep the generated names apart
                 lines = [l for l in lines if not l.startswith('NR')] or lines
@@ -126,6 +136,9 @@ def gen_cases(rng, tier):
             if op == 'renumber_map':
                 c['op'] = 'renumber'
                 c['args'] = {'node_map': G.gen_node_map(rng, lines, rng.choice(['small', 'big', 'sym', 'mixed']))}
+            if op == 'ac_model':
+                c['args'] = {'omega': '%d/%d' % (rng.randint(1, 9), rng.randint(1, 4))}
+                c['orig_s_imag'] = c['args']['omega']
             if op == 'subs':
                 c['netlist'], c['point'] = G.symbolise(rng, lines)
                 c['args'] = {'subs': c['point']}
@@ -146,7 +159,7 @@ def gen_cases(rng, tier):
 
 
 # ---- Coq cases file ------------------------------------------------------------------
-HEADER = ('Require Import LT.FieldSec LT.RewriteModel LT.RewriteCorr LT.RewriteRenum.\n'
+HEADER = ('Require Import LT.FieldSec LT.QcI LT.RewriteModel LT.RewriteCorr LT.RewriteRenum LT.RewriteCorrI.\n'
           'From Coq Require Import List Arith. Import ListNotations.\nLocal Open Scope nat_scope.\n')
 
 
@@ -197,10 +210,11 @@ def other_check(idx, case, wr):
     """(defs, bool expr) for renumber / copy / expand / subs / s_model / noisy_kill; None when not applicable"""
     op = case['op']
     enc = E.Enc(wr['orig'])
+    enc.cplx = op == 'ac_model'
     net = enc.net(wr['orig'])
     if 'exc' in wr and op != 'renumber':
         return None, 'raised ' + wr['exc']
-    defs = ['Definition n_o%d : list elemQ := %s.' % (idx, net)]
+    defs = ['Definition n_o%d : list %s := %s.' % (idx, 'elemI' if enc.cplx else 'elemQ', net)]
     if op in ('copy', 'expand', 'subs'):
         out = enc.net(wr['new'])
         expr = 'net_eqb n_o%d o_o%d' % (idx, idx)
@@ -260,6 +274,21 @@ def other_check(idx, case, wr):
         d0 = len(enc.node_id)
         out = enc.net(wr['new'])
         expr = 'NAT:s_model_code %s n_o%d o_o%d %d' % (E.qc(case['s0']), idx, idx, d0)
+    elif op == 'ac_model':
+        d0 = len(enc.node_id)
+        out = enc.net(wr['new'])
+        om = Fraction(case['args']['omega'])
+        s0 = Fraction(case['s0'])
+        expr = 'NAT:ac_model_code (qi 0 1 (%d) %d) (qi (%d) %d 0 1) n_o%d o_o%d %d' % (om.numerator, om.denominator, s0.numerator, s0.denominator, idx, idx, d0)
+        if enc.bad:
+            return None, enc.bad
+        defs.append('Definition o_o%d : list elemI := %s.' % (idx, out))
+        return '\n'.join(defs), expr
+    elif op == 'noisy':
+        # noise_model(): the structure (NR + noise source through a dummy node); the symbolic value sqrt(4 k_B T R) is not compared
+        d0 = len(enc.node_id)
+        out = enc.net(wr['new'])
+        expr = 'net_eqb (@noisy QcF n_o%d %d) o_o%d' % (idx, d0, idx)
     elif op == 'noisy_kill':
         d0 = len(enc.node_id)
         out = enc.net(wr['new'])
@@ -372,7 +401,7 @@ def run(tier='quick', replay=None):
         # 3. solve jobs: original once, every distinct rewritten text once
         solve_jobs, solve_key = [], {}
         for ci, c in enumerate(cases):
-            if c['op'] in ('switch', 'switch_before'):
+            if c['op'] in ('switch', 'switch_before', 'ac_model', 'noisy'):
                 continue
             rs = [r for r in runs.get(ci, []) if 'error' not in r and 'exc' not in r and 'text' in r]
             if not rs:
@@ -558,7 +587,7 @@ def run(tier='quick', replay=None):
                 tags.append('oracle-contract:augment_node_map')
                 add('oracle-contract:augment_node_map', 'renumber: ' + CODES[8], c, found_input=bool(obad), rewritten=r.get('text'),
                     diff=(obad or [])[:6], correspondence='LT.RewriteRenum.nodemap_ok')
-            if c['op'] == 's_model' and code == 5:
+            if c['op'] in ('s_model', 'ac_model') and code == 5:
                 tags.append('s_model:L-ic-dc')
                 code = 0
             if obad:
